@@ -1,7 +1,7 @@
 import Dcg.Proofs.Config
 import Dcg.Proofs.KeyValue
 import Dcg.Gen.CliTables
-import Dcg.Model.PathNorm
+import Dcg.Proofs.PathNorm
 /-
 C18 — CLI flags, pyproject.toml settings and generate() arguments agree.
 Table theorems are `decide +kernel` over the tables regenerated from /repo on every run
@@ -264,7 +264,7 @@ end KeyValue
 
 /-! ### Path-valued options: the same text names the same real location on every route -/
 section Paths
-open Dcg.Model.PathNorm
+open Dcg.Model.PathNorm Dcg.Proofs.PathNorm
 
 /-- every argparse action of option `d` leaves the command-line text a `str` -/
 def cliKeepsText (d : Nat) : Bool := actionTypes.all (fun a => a.1 != d || strTypes.contains a.2)
@@ -310,9 +310,6 @@ theorem path_type_breaks_tilde :
 
 example : validatePath "/h".toList "/w".toList (cliSees .none "~/m.py".toList) = some "/h/m.py".toList := by decide
 
-theorem comps_tilde_slash (rest : Str) : comps ('~' :: '/' :: rest) = ['~'] :: comps rest := by
-  simp [comps, splitSlash, keep]
-
 /-- A leading `~/` names a location below HOME whatever the working directory is: the parts of HOME followed by the
 parts of the rest, resolved from the root. -/
 theorem tilde_names_home (home cwd : List Str) (rest : Str) :
@@ -324,28 +321,8 @@ theorem absolute_ignores_home_cwd (home cwd home' cwd' : List Str) (v : Str) (h 
     normaliseParts home cwd v = normaliseParts home' cwd' v := by
   simp [normaliseParts, h]
 
-theorem walk_no_dotdot (cs st : List Str) (h : ∀ c ∈ st, c ≠ dotdot) : ∀ c ∈ walk st cs, c ≠ dotdot := by
-  induction cs generalizing st with
-  | nil => simpa [walk] using h
-  | cons d ds ih =>
-    unfold walk
-    split
-    · exact ih st.tail (fun c hc => h c (List.mem_of_mem_tail hc))
-    · rename_i hd
-      exact ih (d :: st) (by
-        intro c hc
-        rcases List.mem_cons.mp hc with rfl | hc
-        · exact hd
-        · exact h c hc)
-
-theorem walk_plain (l st : List Str) (h : ∀ c ∈ l, c ≠ dotdot) : walk st l = l.reverse ++ st := by
-  induction l generalizing st with
-  | nil => simp [walk]
-  | cons d ds ih =>
-    have hd : d ≠ dotdot := h d (by simp)
-    unfold walk
-    rw [if_neg hd, ih (d :: st) (fun c hc => h c (by simp [hc]))]
-    simp
+example : isAbs "/data/x/../m.py".toList = true ∧
+    normaliseParts ["h".toList] ["w".toList] "/data/x/../m.py".toList = some ["data".toList, "m.py".toList] := by decide
 
 /-- The resolved parts contain no `..` … -/
 theorem resolve_no_dotdot (cs : List Str) : ∀ c ∈ resolveParts cs, c ≠ dotdot := by
